@@ -101,6 +101,43 @@ def run(chk):
             continue
         chk.cov["traces_validated_against_impl"] += 1
         distinct.add(hash(("typed", sub, text)))
+    # several typed settings in ONE file: each must deliver the value written whatever was parsed before it in the same load
+    # (over-long integers, underflowing floats and rejected texts in front; no state may leak from one conversion to the next)
+    pool = [c for c in typed_cases(rng)]
+    poison = [(2, "99999999999999999999999", "skip"), (3, "1e-400", "skip"), (2, "-99999999999999999999", "skip"), (3, "1e400", "skip"), (2, "pizza", None), (5, "3x", None)]
+    scases = []
+    for k in range(80 if quick else 2000):
+        chosen = [rng.choice(poison)] + [rng.choice(pool) for _ in range(3)]
+        if k % 3 == 0: rng.shuffle(chosen)
+        prevs = {1: "true", 2: "42", 3: "0.5", 4: "90", 5: "7"}
+        items = []
+        for j, (sub, text, exp) in enumerate(chosen):
+            items.append(('reg', 'str', 'n%d' % j, sub, prevs[sub]))
+        items += [('load', b"".join(b'n%d %s;\n' % (j, rstr(rng, prevs[sub].encode(), True)) for j, (sub, text, exp) in enumerate(chosen))), ('dump',)]
+        items += [('load', b"".join(b'n%d %s;\n' % (j, rstr(rng, text.encode(), True)) for j, (sub, text, exp) in enumerate(chosen))), ('dump',)]
+        scases.append((Case(items, "several typed settings in one file"), chosen)); chk.hist("typed sequence")
+    hs2 = run_harness(impl, [c[0] for c in scases])
+    prevval2 = {1: "1", 2: "42", 3: "0.5", 4: "90", 5: "7"}
+    for (case, chosen), (rc, lines, err) in zip(scases, hs2):
+        if len(chk.violations) >= 4: break
+        chk.cov["evaluations"] += 1
+        why = None
+        if rc != 0:
+            why = "memory error / abort (exit %s): %s" % (rc, err[-400:])
+        else:
+            try:
+                nodes = {n["name"]: n for n in parse_dump(segments(lines)[-1]) if n["kind"] == STRING}
+                for j, (sub, text, exp) in enumerate(chosen):
+                    if exp == "skip": continue
+                    want = str(exp) if exp is not None else prevval2[sub]
+                    got = nodes[b'n%d' % j]["typed"]
+                    if got != want:
+                        why = "typed setting n%d (subtype %d) written as %r delivers %s, expected %s, when %r stands in the same file" % (j, sub, text, got, want, [t for _, t, _ in chosen]); break
+            except Exception as e:
+                why = "cannot read typed values back: %s (%r)" % (e, lines[-8:])
+        if why:
+            chk.violation(why, "script:\n%s\n\nimplementation:\n%s" % (case.describe(), "\n".join(lines)), "typedseq:%s" % "|".join(t for _, t, _ in chosen)); continue
+        chk.cov["traces_validated_against_impl"] += 1
     chk.cov["distinct_nontrivial"] = len(distinct)
     chk.cov["samples"] = [repr(trees[len(fixed) + 1][1]), repr(trees[len(fixed) + 2][0])[:400], tcases[20][0].describe().split("\n")]
     chk.cov["rule"] = "random trees (depth <= 4, repeated keys in different case, all node kinds) x random admissible renderings (bare/quoted strings with every escape, paren and comma lists, pairs, nested objects, ; or newline, last entry without terminator, C and C++ comments incl. /*/ and /**/, blanks); oracle independent of the model: the dump must equal norm(tree). Typed settings with python-computed expected values and rejection cases. Distinct = distinct non-trivial dumps and typed cases."
